@@ -306,6 +306,10 @@ func PreMarshal(element Element, encoder *xml.Encoder, start *xml.StartElement) 
 				Name:  xml.Name{Local: "xmlns:olive"},
 				Value: "http://olive.io/spec/BPMN/MODEL",
 			},
+			xml.Attr{
+				Name:  xml.Name{Local: "xmlns:xsi"},
+				Value: "http://www.w3.org/2001/XMLSchema-instance",
+			},
 		)
 	}
 }
